@@ -388,6 +388,26 @@ theorem raop_step_safe (h : RoundingLaws rnd) {s : Raop} (hs : RaopInv s) (op : 
     have he : Raop.step rnd s (.reportOther x) = (s, []) := rfl
     rw [he]
     exact ⟨hs, fun ev hev => by cases hev⟩
+  | setRefused x =>
+    cases hf : facadeSet x with
+    | error e =>
+      have he : Raop.step rnd s (.setRefused x) = (s, [.raised e]) := by simp only [Raop.step, hf]
+      rw [he]
+      exact ⟨hs, single _ (facadeSet_err hf).1⟩
+    | ok l =>
+      obtain ⟨hl, hx⟩ := facadeSet_ok hf
+      subst hl
+      obtain ⟨d, hd, hg⟩ := pctToDbfsF_ok h hx
+      have he : Raop.step rnd s (.setRefused l) = (s, [.recv l, .tried d, .raised .protocol]) := by
+        simp only [Raop.step, hf, hd]
+      rw [he]
+      refine ⟨hs, ?_⟩
+      intro ev hev
+      simp only [List.mem_cons, List.not_mem_nil, or_false] at hev
+      rcases hev with rfl | rfl | rfl
+      · exact hx
+      · exact hg
+      · rfl
   | streamStart init accepts =>
     obtain ⟨v, hv, hvr⟩ := raop_volume_good h hs
     -- the "else" branch: set now, or deferred into send_audio
@@ -568,6 +588,46 @@ theorem stream_start_adopts_iff (iv : FVal) (accepts : Bool) :
 example : (Raop.run id Raop.init [.streamStart (some (.fin (-15))) true, .read, .streamStart (some (.fin 5)) true]) =
     [[], [.ret (.fin 50)], [.recv (.fin 50), .wire (.fin (-15)), .disp (.fin 50)]] := by decide +kernel
 
+/-- a `set_volume` the receiver refuses (or that times out) leaves the stored level exactly
+    as it is — also the level stored by operations that overlapped it: nothing is rolled
+    back — so deleting every refused set from a history leaves the outcome of all other
+    operations unchanged -/
+def isRefused : Op → Bool
+  | .setRefused _ => true
+  | _ => false
+
+theorem refused_set_inert_step (s : Raop) (x : FVal) : (Raop.step rnd s (.setRefused x)).1 = s := by
+  cases hf : facadeSet x with
+  | error e => simp only [Raop.step, hf]
+  | ok l =>
+    cases hd : pctToDbfsF rnd l with
+    | error e => simp only [Raop.step, hf, hd]
+    | ok d => simp only [Raop.step, hf, hd]
+
+theorem refused_set_inert (s : Raop) (ops : List Op) :
+    Raop.run rnd s (ops.filter (fun o => !isRefused o)) =
+      ((Raop.run rnd s ops).zip ops).filterMap (fun p => if isRefused p.2 then none else some p.1) := by
+  induction ops generalizing s with
+  | nil => rfl
+  | cons op ops ih =>
+    by_cases ho : isRefused op = true
+    · have hstep : (Raop.step rnd s op).1 = s := by
+        cases op <;> first | exact refused_set_inert_step s _ | (simp [isRefused] at ho)
+      have hf : (op :: ops).filter (fun o => !isRefused o) = ops.filter (fun o => !isRefused o) := by
+        rw [List.filter_cons]; simp [ho]
+      rw [hf, ih s]
+      simp only [Raop.run, hstep, List.zip_cons_cons, List.filterMap_cons, ho, if_true]
+    · have ho' : isRefused op = false := by simpa using ho
+      have hf : (op :: ops).filter (fun o => !isRefused o) = op :: ops.filter (fun o => !isRefused o) := by
+        rw [List.filter_cons]; simp [ho']
+      rw [hf]
+      simp only [Raop.run, List.zip_cons_cons, List.filterMap_cons, ho', Bool.false_eq_true, if_false]
+      rw [ih]
+
+example : Raop.run id ⟨some (.fin (-21))⟩ [.setRefused (.fin 20), .set (.fin 50), .read] =
+    [[.recv (.fin 20), .tried (.fin (-24)), .raised .protocol],
+     [.recv (.fin 50), .wire (.fin (-15)), .disp (.fin 50)], [.ret (.fin 50)]] := by decide +kernel
+
 /-! ## whole histories: facade over MrpAudio (absolute volume control) -/
 
 theorem mrp_step_safe (h : RoundingLaws rnd) (s : Mrp) (op : Op) :
@@ -648,6 +708,10 @@ theorem mrp_step_safe (h : RoundingLaws rnd) (s : Mrp) (op : Op) :
     simp only [Mrp.step] at hev
     cases hev
   | streamStart x a =>
+    intro ev hev
+    simp only [Mrp.step] at hev
+    cases hev
+  | setRefused x =>
     intro ev hev
     simp only [Mrp.step] at hev
     cases hev
